@@ -2,10 +2,37 @@ package main
 
 import (
 	"encoding/json"
+	"fmt"
 	"os"
+	"os/exec"
+	"path/filepath"
+	"sort"
+	"strings"
+	"sync"
 )
 
-// loadOverlay reads {"<abs file>": "<replacement file path>"} (VERIF_OVERLAY) for checker self-validation.
+// Checker self-validation ("both ways"): every rule has seeded mutants of /repo's source that must make it fire.
+// Mutants are applied through go/packages' overlay (in memory); nothing is written into /repo. Their outcome is
+// recorded in evidence and never influences the exit code.
+
+type mutant struct {
+	ID       string `json:"id"`
+	Property string `json:"property"`
+	File     string `json:"file"`    // repo-relative
+	Search   string `json:"search"`  // must occur exactly once
+	Replace  string `json:"replace"`
+	Expect   string `json:"expect_rule"` // rule id prefix that must report a violation
+	Note     string `json:"note"`
+}
+
+type mutantResult struct {
+	ID      string `json:"id"`
+	Expect  string `json:"expect_rule"`
+	Outcome string `json:"outcome"` // killed | survived | skipped | wrong-rule
+	Detail  string `json:"detail,omitempty"`
+}
+
+// loadOverlay reads {"<abs file>": "<replacement file path>"} (VERIF_OVERLAY).
 func (c *Ctx) loadOverlay(path string) {
 	b, err := os.ReadFile(path)
 	if err != nil {
@@ -25,4 +52,109 @@ func (c *Ctx) loadOverlay(path string) {
 	}
 }
 
-func runMutants(c *Ctx) {}
+func loadMutants(root, prop string) []mutant {
+	files, _ := filepath.Glob(filepath.Join(root, "selftest", "mutants", "*.json"))
+	sort.Strings(files)
+	var out []mutant
+	for _, f := range files {
+		b, err := os.ReadFile(f)
+		if err != nil {
+			continue
+		}
+		var ms []mutant
+		if err := json.Unmarshal(b, &ms); err != nil {
+			fmt.Fprintf(os.Stderr, "mutant file %s: %v\n", f, err)
+			continue
+		}
+		for _, m := range ms {
+			if m.Property == prop {
+				out = append(out, m)
+			}
+		}
+	}
+	return out
+}
+
+func runMutants(c *Ctx) {
+	ms := loadMutants(c.Root, c.Prop)
+	if len(ms) == 0 {
+		return
+	}
+	self, err := os.Executable()
+	if err != nil {
+		return
+	}
+	tmp, err := os.MkdirTemp("", "verif-mut-")
+	if err != nil {
+		return
+	}
+	defer os.RemoveAll(tmp)
+	results := make([]mutantResult, len(ms))
+	sem := make(chan struct{}, 6)
+	var wg sync.WaitGroup
+	for i, m := range ms {
+		wg.Add(1)
+		go func(i int, m mutant) {
+			defer wg.Done()
+			sem <- struct{}{}
+			defer func() { <-sem }()
+			results[i] = runOneMutant(c, self, tmp, m)
+		}(i, m)
+	}
+	wg.Wait()
+	killed := 0
+	for _, r := range results {
+		if r.Outcome == "killed" {
+			killed++
+		}
+	}
+	c.Extra["mutants"] = map[string]any{"total": len(ms), "killed": killed, "results": results,
+		"note": "seeded source mutants applied through the go/packages overlay; outcome is informational and does not affect the verdict"}
+	if !c.Quiet {
+		fmt.Printf("%s self-validation: %d/%d seeded mutants reported by the expected rule\n", c.Prop, killed, len(ms))
+		for _, r := range results {
+			if r.Outcome != "killed" {
+				fmt.Printf("   mutant %s: %s %s\n", r.ID, r.Outcome, r.Detail)
+			}
+		}
+	}
+}
+
+func runOneMutant(c *Ctx, self, tmp string, m mutant) mutantResult {
+	res := mutantResult{ID: m.ID, Expect: m.Expect}
+	abs := filepath.Join(c.Repo, m.File)
+	src, err := os.ReadFile(abs)
+	if err != nil {
+		res.Outcome, res.Detail = "skipped", "file missing"
+		return res
+	}
+	if n := strings.Count(string(src), m.Search); n != 1 {
+		res.Outcome, res.Detail = "skipped", fmt.Sprintf("search string occurs %d times in the current tree", n)
+		return res
+	}
+	mf := filepath.Join(tmp, m.ID+".go")
+	os.WriteFile(mf, []byte(strings.Replace(string(src), m.Search, m.Replace, 1)), 0o644)
+	ov := filepath.Join(tmp, m.ID+".overlay.json")
+	ob, _ := json.Marshal(map[string]string{abs: mf})
+	os.WriteFile(ov, ob, 0o644)
+	cmd := exec.Command(self, c.Prop, "quick")
+	cmd.Env = append(os.Environ(), "VERIF_OVERLAY="+ov, "VERIF_NO_EVIDENCE=1", "VERIF_NO_MUTANTS=1", "VERIF_REPLAY_DIR="+tmp)
+	out, _ := cmd.CombinedOutput()
+	s := string(out)
+	if !strings.Contains(s, "VIOLATION property=") {
+		res.Outcome = "survived"
+		return res
+	}
+	if strings.Contains(s, "VIOLATION "+m.Expect) || strings.Contains(s, "UNDECIDED "+m.Expect) {
+		res.Outcome = "killed"
+		return res
+	}
+	res.Outcome = "wrong-rule"
+	for _, l := range strings.Split(s, "\n") {
+		if strings.HasPrefix(strings.TrimSpace(l), "VIOLATION C") || strings.HasPrefix(strings.TrimSpace(l), "UNDECIDED") {
+			res.Detail = strings.TrimSpace(l)
+			break
+		}
+	}
+	return res
+}
